@@ -50,6 +50,7 @@ type CtxInfo struct {
 	CreatedAt int64
 	Repeated bool
 	MaxTotal int64
+	EverUnlimited bool
 	Batches  []BatchInfo
 	Events   []CtxEvent
 	Removed  bool
@@ -123,7 +124,7 @@ func (t *Tracker) rebase(s *Snap) {
 			ci.Events = append(ci.Events, CtxEvent{H: s.Height, Kind: "reimport"})
 			continue
 		}
-		t.Ctxs[id] = &CtxInfo{ID: id, Origin: "genesis", Repeated: c.Repeated, MaxTotal: c.RepeatedTotal, Consumer: c.Consumer}
+		t.Ctxs[id] = &CtxInfo{ID: id, Origin: "genesis", Repeated: c.Repeated, MaxTotal: c.RepeatedTotal, Consumer: c.Consumer, EverUnlimited: c.RepeatedTotal < 0}
 	}
 }
 
@@ -225,7 +226,7 @@ func (t *Tracker) Apply(x *Exec, r *StepRec) {
 		}
 		c := post.Ctx[id]
 		ci := &CtxInfo{ID: id, CreatedAt: h, Repeated: c.Repeated, MaxTotal: c.RepeatedTotal, Consumer: c.Consumer,
-			CreatedRunning: c.State == types.RUNNING}
+			CreatedRunning: c.State == types.RUNNING, EverUnlimited: c.RepeatedTotal < 0}
 		switch {
 		case r.Kind == "mod":
 			ci.Origin = "module"
@@ -267,6 +268,9 @@ func (t *Tracker) Apply(x *Exec, r *StepRec) {
 		}
 		if qc.RepeatedTotal > ci.MaxTotal {
 			ci.MaxTotal = qc.RepeatedTotal
+		}
+		if qc.RepeatedTotal < 0 {
+			ci.EverUnlimited = true
 		}
 		if qc.RepeatedFrequency >= 1<<62 {
 			ci.HugeFreq = true
